@@ -117,9 +117,49 @@ func refKey(d ocispec.Descriptor) string {
 
 const extraName, extraValue = "ns", "lib/a&b c"
 
+// bufWriter records a response so that the script's lock is not held while
+// the body is written to a client that may not be reading yet.
+type bufWriter struct {
+	h       http.Header
+	status  int
+	body    []byte
+	chunked bool
+}
+
+func (b *bufWriter) Header() http.Header { return b.h }
+func (b *bufWriter) WriteHeader(code int) {
+	if b.status == 0 {
+		b.status = code
+	}
+}
+func (b *bufWriter) Write(p []byte) (int, error) {
+	if b.status == 0 {
+		b.status = http.StatusOK
+	}
+	b.body = append(b.body, p...)
+	return len(p), nil
+}
+func (b *bufWriter) Flush() { b.chunked = true }
+
 func (s *script) ServeHTTP(w http.ResponseWriter, r *http.Request) {
+	bw := &bufWriter{h: http.Header{}}
 	s.mu.Lock()
-	defer s.mu.Unlock()
+	s.serve(bw, r)
+	s.mu.Unlock()
+	for k, v := range bw.h {
+		w.Header()[k] = v
+	}
+	if bw.status == 0 {
+		bw.status = http.StatusOK
+	}
+	w.WriteHeader(bw.status)
+	if bw.chunked {
+		w.(http.Flusher).Flush()
+	}
+	w.Write(bw.body)
+}
+
+func (s *script) serve(w http.ResponseWriter, r *http.Request) {
 	c := s.c
 	ord := s.reqs
 	s.reqs++
@@ -319,7 +359,7 @@ func (s *script) list(w http.ResponseWriter, r *http.Request, rec *served) {
 	// rel probe: shapes that carry no rel="next" link on the final page
 	relFinal := ""
 	if !hasNext && c.RelShape != "" {
-		relFinal = c.RelShape
+		relFinal = c.RelShape // every shape ends with a link that is not a next link
 	}
 
 	// next link
@@ -375,6 +415,8 @@ func (s *script) list(w http.ResponseWriter, r *http.Request, rec *served) {
 				link = "<" + first + `>; rel="prev"`
 			case "first-only":
 				link = "<" + first + `>; rel="first"`
+			default: // prev-then-next: the final page only links backwards
+				link = "<" + first + `>; rel="prev"`
 			}
 		}
 		if hasNext && c.RelShape == "prev-then-next" {
